@@ -6,19 +6,19 @@ wt=/tmp/mut/$id; out=$wt/out; dst=/verif/seeded/$id-$k
 cd $wt || exit 3
 git checkout -q -- . && git checkout -q --detach $(git -C /repo rev-parse HEAD) || exit 3
 export PYTHONPATH=$wt/src:/tmp/genjax_env
-timeout 900 /venv/bin/python $out/demo$k.py > /tmp/confirm_clean.log 2>&1; rc_clean=$?
-if ! git apply $out/patch$k.diff 2>/tmp/confirm_apply.log; then
-  echo "$id-$k: patch does not apply on HEAD: $(head -2 /tmp/confirm_apply.log | tr '\n' ' ')"; exit 4
+timeout 900 /venv/bin/python $out/demo$k.py > /tmp/confirm_clean_$id-$k.log 2>&1; rc_clean=$?
+if ! git apply $out/patch$k.diff 2>/tmp/confirm_apply_$id-$k.log; then
+  echo "$id-$k: patch does not apply on HEAD: $(head -2 /tmp/confirm_apply_$id-$k.log | tr '\n' ' ')"; exit 4
 fi
-git diff > /tmp/confirm_patch.diff
-timeout 900 /venv/bin/python $out/demo$k.py > /tmp/confirm_mut.log 2>&1; rc_mut=$?
-timeout 1800 /venv/bin/python -m pytest -q --no-cov -p jaxcompat -p no:cacheprovider -n 4 $tests > /tmp/confirm_tests.log 2>&1; rc_tests=$?
-tsum=$(tail -1 /tmp/confirm_tests.log)
+git diff > /tmp/confirm_patch_$id-$k.diff
+timeout 900 /venv/bin/python $out/demo$k.py > /tmp/confirm_mut_$id-$k.log 2>&1; rc_mut=$?
+timeout 1800 /venv/bin/python -m pytest -q --no-cov -p jaxcompat -p no:cacheprovider -n 4 $tests > /tmp/confirm_tests_$id-$k.log 2>&1; rc_tests=$?
+tsum=$(tail -1 /tmp/confirm_tests_$id-$k.log)
 git checkout -q -- .
 echo "$id-$k: demo clean rc=$rc_clean, demo with change rc=$rc_mut, tests rc=$rc_tests ($tsum)"
 if [ $rc_clean -eq 0 ] && [ $rc_mut -ne 0 ] && [ $rc_tests -eq 0 ]; then
-  mkdir -p $dst && cp /tmp/confirm_patch.diff $dst/patch.diff && cp $out/demo$k.py $dst/demo.py && cp $out/meta$k.json $dst/agent_meta.json
-  tail -5 /tmp/confirm_mut.log > $dst/demo_output_with_change.txt
+  mkdir -p $dst && cp /tmp/confirm_patch_$id-$k.diff $dst/patch.diff && cp $out/demo$k.py $dst/demo.py && cp $out/meta$k.json $dst/agent_meta.json
+  tail -5 /tmp/confirm_mut_$id-$k.log > $dst/demo_output_with_change.txt
   echo "{\"confirmed_on\": \"$(git -C /repo rev-parse --short HEAD)\", \"demo_clean_rc\": $rc_clean, \"demo_changed_rc\": $rc_mut, \"tests\": \"$tests\", \"tests_result\": \"$tsum\"}" > $dst/confirm.json
   echo "  -> filed under $dst"
 fi
